@@ -2,7 +2,7 @@
    The f32 operations and the decimal printer are transliterated dependency code
    (Model/CssNum.v), tied to the binaries by differential testing only. *)
 From GE Require Import Model.Str Model.CssNum Model.CssTok Model.CssOut Model.CssUrlEnc Model.Css.
-From GE Require Import Model.CssSpec Proofs.CssNumProofs Proofs.CssSpecProofs.
+From GE Require Import Model.CssSpec Proofs.CssNumProofs Proofs.CssSpecProofs Proofs.CssTokProofs Proofs.CssShapeProofs Proofs.CssSheetShape.
 From Coq Require Import ZArith.
 Open Scope N_scope.
 
@@ -41,3 +41,15 @@ Theorem C10_prelude_rpx_refuted :
   map (fun e => ser_tok (e_tok e)) (so_normal (expected plain d29_tree)) = [[64;97]; [49;48;118;119]; [59]].
 Proof. exact prelude_rpx_refuted_d29. Qed.
 Print Assumptions C10_prelude_rpx_refuted.
+
+(* "Every dimension with unit rpx, wherever it occurs ... and no other unit is converted": the unit of every dimension of
+   the whole normal output is the specification's - `vw` exactly for the `rpx` dimensions of declaration values, functions,
+   blocks of selectors and of at-rule preludes (media / container / supports conditions), custom properties, @import
+   conditions; unchanged everywhere else - for every sheet and option set, outside class D29 (above).  Shapes carry the unit
+   (CssSpec.tok_shape keeps it and forgets the value, which C10_rpx_formula gives). *)
+Theorem C10_units_exact_sheet : forall o tree endp,
+  shaped tree = true -> k29_list tree = false ->
+  so_complete (expected o tree) = true ->
+  shp (o_tokens (w_normal (transform o tree endp))) = shp (map e_tok (so_normal (expected o tree))).
+Proof. exact shape_exact_sheet. Qed.
+Print Assumptions C10_units_exact_sheet.
